@@ -48,6 +48,8 @@ js::Value Op::to_json() const
             v.set("inverse_first", Value::Bool(inverse_first));
             v.set("nphase2", Value::U(nphase2)).set("nblock2", Value::U(nblock2)).set("buffer2", Value::Bool(buffer2)).set("dst2", Value::S(DNAMES[dst2]));
         }
+        if (inv_via_ntt)
+            v.set("inv_via_ntt", Value::Bool(true));
         v.set("input", Value::S(INAMES[input])).set("input_seed", Value::U(input_seed));
         break;
     case K_MERKLE:
@@ -77,6 +79,8 @@ js::Value Op::to_json() const
         s.set("sched_seed", Value::U(sched_seed));
         s.set("team_shortfall", Value::Bool(shortfall)).set("dirty_heap", Value::Bool(dirty_heap)).set("dirty_caller_buffers", Value::Bool(dirty_bufs));
         s.set("garbage_seed", Value::U(garbage_seed));
+        if (main_first)
+            s.set("main_first", Value::Bool(true));
         if (strategy == sim::ST_REPLAY)
         {
             Value arr = Value::Arr();
@@ -114,6 +118,7 @@ Op Op::from_json(const js::Value &v)
     o.nblock2 = v.getu("nblock2", 1);
     o.buffer2 = v.getb("buffer2");
     o.dst2 = find_name(DNAMES, 3, v.gets("dst2", "other"), D_OTHER);
+    o.inv_via_ntt = v.getb("inv_via_ntt");
     o.input = find_name(INAMES, IN_NKINDS, v.gets("input", "rand"), IN_RAND);
     o.input_seed = v.getu("input_seed", 1);
     o.variant = find_name(VNAMES, 8, v.gets("variant", "seq"), 0);
@@ -137,6 +142,7 @@ Op Op::from_json(const js::Value &v)
         o.dirty_heap = s->getb("dirty_heap");
         o.dirty_bufs = s->getb("dirty_caller_buffers");
         o.garbage_seed = s->getu("garbage_seed", 0);
+        o.main_first = s->getb("main_first");
         if (const js::Value *arr = s->find("schedule"))
             for (auto &e : arr->a)
                 if (e.a.size() == 4)
@@ -285,6 +291,7 @@ struct Gen
     {
         o.sched_seed = r.next();
         o.garbage_seed = r.next();
+        o.main_first = lim.cold;
         if (fault_free)
         {
             o.strategy = sim::ST_SERIAL_IDENTITY;
@@ -355,6 +362,8 @@ struct Gen
         }
         o.nblock = pick_nblock(o.ncols);
         o.buffer = r.chance(1, 2);
+        if (kind == K_INTT || kind == K_ROUNDTRIP)
+            o.inv_via_ntt = r.chance(1, 4);
         if (kind == K_ROUNDTRIP)
         {
             o.inverse_first = r.chance(1, 2);
